@@ -258,7 +258,7 @@ PROPS = {
     "C17": {
         "level": "proof",
         "lean": ["PasfmtModel.Props.C17"],
-        "streams": [{"stream": "io", "tool": "iocheck", "which": "c17", "quick": 200, "thorough": 3000}],
+        "streams": [{"stream": "io", "tool": "iocheck", "which": "c17", "quick": 400, "thorough": 4000}],
         "oracle_prefixes": ["c17", "c16"],
         "abnormal_binding": False,
         "explanation": "Theorems: BOM sniffing, BOM overrides the configured encoding, UTF-16 encoders round-trip every scalar sequence in "
